@@ -9,6 +9,12 @@
 (*   "empty"     exit 0, nothing written to $CONVERSION_RESPONSE_PATH       *)
 (*   "malformed" exit 0, the response file is not JSON                      *)
 (*   "failmsg"   exit 0, {"failedMessage": m}                               *)
+(*   "failobj"   exit 0, {"failedMessage": m, "convertedObjects": [...]}:   *)
+(*               the hook reports a failure AND writes every received       *)
+(*               object converted to the promised version. The step failed  *)
+(*               (the property: Failed, with the failing hook's own         *)
+(*               message, whenever a step failed): exactly like "failmsg",  *)
+(*               the objects are not used.                                  *)
 (*   "ok"        exit 0, every received object converted                    *)
 (*   "drop"      exit 0, converted objects returned but one is missing      *)
 (*   "extra"     exit 0, converted objects returned plus a duplicate        *)
@@ -16,22 +22,33 @@
 (* every rule with the group, "ss" both without, "mixed" alternating; "+d"  *)
 (* adds rules that are not on the chain (a back edge, a dead end, an        *)
 (* unrelated pair) served by a third hook that must never run.              *)
+(* layout names how the chain's rules are spread over hooks and bindings:   *)
+(* "perhook" odd steps in hook-a, even steps in hook-b, one conversion      *)
+(* binding each; "split" ONE hook with TWO conversion bindings for the same *)
+(* crdName (the documented up/down layout), odd steps in the first binding, *)
+(* even steps in the second (a chain of one step: the rule in the first     *)
+(* binding, an unrelated rule in the second), so that a rule of the         *)
+(* non-last binding is always needed. The expected run does not depend on   *)
+(* variant or layout.                                                       *)
 (* One action per step the code takes (conversionEventHandler loop body),   *)
 (* Finish is the end of the loop plus handleReviewRequest's mapping.        *)
-(* FixFailMsg / FixCount = FALSE give the code as it was (F16 / F17).       *)
+(* FixFailMsg / FixCount = FALSE give the code as it was (F16 / F17); as it  *)
+(* was, the objects of a "failobj" step became the next input (Success      *)
+(* when nothing else went wrong).                                           *)
 (***************************************************************************)
 EXTENDS Integers, Sequences, FiniteSets, TLC, Json
 
-CONSTANTS MaxLen, Counts, Kinds, Variants, Reach, FixFailMsg, FixCount, DoEmit
+CONSTANTS MaxLen, Counts, Kinds, Variants, Layouts, Reach, FixFailMsg, FixCount, DoEmit
 
-VARIABLES len, n, outc, variant, reach,    \* the case (chosen in Init)
+VARIABLES len, n, outc, variant, layout, reach,    \* the case (chosen in Init)
           i, cnt, invoked, status, msg       \* the run
 
-vars == <<len, n, outc, variant, reach, i, cnt, invoked, status, msg>>
+vars == <<len, n, outc, variant, layout, reach, i, cnt, invoked, status, msg>>
 
 OkKinds    == {"ok", "drop", "extra"}        \* the hook answered with converted objects
 CountKinds == {"drop", "extra"}
-FailKinds  == {"exit1", "empty", "malformed", "failmsg"}
+MsgKinds   == {"failmsg", "failobj"}         \* the hook failed and said why
+FailKinds  == {"exit1", "empty", "malformed"} \cup MsgKinds
 
 NoMsg == [kind |-> "none", step |-> 0]
 
@@ -51,18 +68,20 @@ Init ==
   /\ outc \in [1..len -> Kinds]
   /\ LegalCase(len, n, outc)
   /\ variant \in Variants
+  /\ layout \in Layouts
   /\ reach \in Reach
   /\ LegalReach(len, outc, reach)
   /\ i = 1 /\ cnt = n /\ invoked = <<>> /\ status = "run" /\ msg = NoMsg
 
-Produced(k, c) == CASE outc[k] = "ok" -> c [] outc[k] = "drop" -> c - 1 [] outc[k] = "extra" -> c + 1 [] OTHER -> 0
+(* the number of converted objects the hook of step k writes when it is handed c objects *)
+Produced(k, c) == CASE outc[k] \in {"ok", "failobj"} -> c [] outc[k] = "drop" -> c - 1 [] outc[k] = "extra" -> c + 1 [] OTHER -> 0
 
 (* run the hook of step i on the current objects *)
 (* no chain of declared rules serves the request: it fails, no hook is run *)
 NoChain ==
   /\ status = "run" /\ ~reach
   /\ status' = "Failed" /\ msg' = [kind |-> "other", step |-> 0]
-  /\ UNCHANGED <<len, n, outc, variant, reach, i, cnt, invoked>>
+  /\ UNCHANGED <<len, n, outc, variant, layout, reach, i, cnt, invoked>>
 
 Step ==
   /\ status = "run" /\ i <= len /\ reach
@@ -70,14 +89,14 @@ Step ==
   /\ IF outc[i] \in OkKinds
        THEN /\ cnt' = Produced(i, cnt) /\ i' = i + 1
             /\ UNCHANGED <<status, msg>>
-     ELSE IF outc[i] = "failmsg" /\ ~FixFailMsg
-       THEN (* as it was: the message is not looked at, the (absent) converted objects become the next input *)
-            /\ cnt' = 0 /\ i' = i + 1
+     ELSE IF outc[i] \in MsgKinds /\ ~FixFailMsg
+       THEN (* as it was: the message is not looked at, the converted objects (none for "failmsg") become the next input *)
+            /\ cnt' = Produced(i, cnt) /\ i' = i + 1
             /\ UNCHANGED <<status, msg>>
      ELSE /\ status' = "Failed"
-          /\ msg' = IF outc[i] = "failmsg" THEN [kind |-> "hook", step |-> i] ELSE [kind |-> "other", step |-> i]
+          /\ msg' = IF outc[i] \in MsgKinds THEN [kind |-> "hook", step |-> i] ELSE [kind |-> "other", step |-> i]
           /\ UNCHANGED <<cnt, i>>
-  /\ UNCHANGED <<len, n, outc, variant, reach>>
+  /\ UNCHANGED <<len, n, outc, variant, layout, reach>>
 
 (* all steps done: Success iff as many objects as requested *)
 Finish ==
@@ -85,7 +104,7 @@ Finish ==
   /\ IF (IF FixCount THEN cnt = n ELSE cnt >= 1)
        THEN status' = "Success" /\ msg' = NoMsg
        ELSE status' = "Failed" /\ msg' = [kind |-> "other", step |-> 0]
-  /\ UNCHANGED <<len, n, outc, variant, reach, i, cnt, invoked>>
+  /\ UNCHANGED <<len, n, outc, variant, layout, reach, i, cnt, invoked>>
 
 Next == NoChain \/ Step \/ Finish
 Spec == Init /\ [][Next]_vars
@@ -111,9 +130,9 @@ StopsAtFirstFailure ==
   /\ \A k \in 1..(Len(invoked) - 1) : outc[invoked[k].step] \in OkKinds
   /\ (Done /\ FirstFail # 0) => (status = "Failed" /\ Len(invoked) = FirstFail)
 
-(* Failed carries the failing hook's own message when it gave one *)
+(* Failed carries the failing hook's own message when it gave one (whether or not it also wrote objects) *)
 FailedCarriesHookMessage ==
-  (Done /\ FirstFail # 0 /\ outc[FirstFail] = "failmsg") => (status = "Failed" /\ msg = [kind |-> "hook", step |-> FirstFail])
+  (Done /\ FirstFail # 0 /\ outc[FirstFail] \in MsgKinds) => (status = "Failed" /\ msg = [kind |-> "hook", step |-> FirstFail])
 
 (* Success only if every step succeeded and as many objects as requested come back *)
 SuccessOnlyIfAllOkAndCountMatches ==
@@ -128,7 +147,7 @@ ServedWhenAllOk ==
 FailsWithoutChain ==
   (Done /\ ~reach) => (status = "Failed" /\ invoked = <<>>)
 
-Case == [ len |-> len, n |-> n, outc |-> outc, variant |-> variant, reach |-> reach,
+Case == [ len |-> len, n |-> n, outc |-> outc, variant |-> variant, layout |-> layout, reach |-> reach,
           invoked |-> invoked, status |-> status, msg |-> msg, cnt |-> cnt ]
 Emit == (DoEmit /\ Done) => PrintT("@@" \o ToJson(Case))
 =============================================================================
